@@ -313,7 +313,8 @@ def triggers(expr):
     return {'exp': bool(expr.has(sympy.exp)), 'pow': bool(expr.has(sympy.Pow)),
             'deriv': bool(expr.has(sympy.Derivative)),
             'floor': bool(expr.has(sympy.floor) or expr.has(sympy.ceiling)),
-            'nan': bool(expr.has(sympy.nan) or expr.has(sympy.oo) or expr.has(sympy.zoo))}
+            'nan': bool(expr.has(sympy.nan) or expr.has(sympy.oo) or expr.has(sympy.zoo)),
+            'or': bool(expr.has(sympy.Or))}
 
 
 def magnitude_trigger(t, exc):
@@ -377,7 +378,7 @@ def snapshot(c, op):
         isq = isinstance(a, Quantity)
         return {'load': site[0] if isq else 'loaderVariable',
                 'apiBase': 'factoryQuantity' if isq else 'newVariable',
-                'conv': 'convFactor' if isq else 'convVariable',
+                'conv': 'convFactor' if isq else ('origDerivVariable' if '_orig_deriv' in a.name else 'convVariable'),
                 'sing': 'singQuantity' if isq else 'strayVariable',
                 'fix': 'maybeConvert' if isq else 'strayVariable',
                 'fixAll': 'maybeConvert' if isq else 'strayVariable'}.get(op, 'strayQuantity' if isq else 'strayVariable')
@@ -402,7 +403,8 @@ def snapshot(c, op):
         tri = [unit_outcome(m.units, eq.lhs, False), unit_outcome(m.units, eq.rhs, False),
                unit_outcome(m.units, eq, True)]
         if tri != ['ok', 'ok', 'ok']:
-            units[str(i)] = tri + [triggers(eq)] + [str(eq)[:300] if any(t.startswith('other') for t in tri) else '']
+            units[str(i)] = tri + [triggers(eq)] + [str(eq)[:300] if any(not t.startswith('ok') for t in tri[2:]) or
+                                                    any(t.startswith('other') for t in tri) else '']
     for v in m.variables():
         k = c.ident(v, how)
         cl, det = ref_class(m, v)
@@ -856,9 +858,11 @@ def oracle(case, obs):
                     now = s['units'].get(str(j), ['ok', 'ok', 'ok'])[2]
                     if now.startswith('UnitError') and was.get(tuple(l)) == 'ok' and -1 not in l and \
                             s['eqs'][j] not in before['eqs'] and not (raw_ids & set(s['eqs'][j])):
-                        fails.append({'key': 'unit-regression:%s' % opn,
-                                      'detail': 'model %d: the equation for %s converted to consistent units before %s and '
-                                                'reports %s after it' % (i, l, opn, now)})
+                        symbolic = rec['op'] == 'sing' and s['units'][str(j)][3].get('or')
+                        fails.append({'key': 'unit-regression:%s%s' % (opn, ':symbolic-bounds' if symbolic else ''),
+                                      'detail': 'model %d: the equation for object %s converted to consistent units '
+                                                'before %s and reports %s after it: %s'
+                                                % (i, l, opn, now, s['units'][str(j)][4])})
         if rec is not None and rec['op'] == 'raw':
             s = per_model[rec['who']]
             want = {'notunit': 'missing'}.get(rec.get('planted'), rec.get('planted'))
